@@ -234,9 +234,10 @@ fn any_witver() -> (u8, bech32::Fe32) {
 }
 
 macro_rules! spk_witness {
-    ($name:ident, $len:expr) => {
+    ($name:ident, $len:expr, $unw:literal) => {
         #[kani::proof]
         #[kani::stub(build_scriptint, scriptint_unreachable)]
+        #[kani::unwind($unw)] // iterating a heap-allocated slice (the program Vec) is not constant-bounded for CBMC
         fn $name() {
             const L: usize = $len;
             let prog: [u8; L] = kani::any();
@@ -263,16 +264,16 @@ macro_rules! spk_witness {
 }
 //@ harness: address_script_pubkey_wit_l02 class=F tier=quick
 //@ clause: script_pubkey() of a witness-program address (every version 0..=16, every 2-byte program) is `<version opcode> <push 2> <program>`: small-integer opcode for the version (never the generic script-number encoder), direct push, program verbatim
-spk_witness!(address_script_pubkey_wit_l02, 2);
+spk_witness!(address_script_pubkey_wit_l02, 2, 4);
 //@ harness: address_script_pubkey_wit_l20 class=F tier=quick
 //@ clause: same, every 20-byte program (p2wpkh and v1+)
-spk_witness!(address_script_pubkey_wit_l20, 20);
+spk_witness!(address_script_pubkey_wit_l20, 20, 22);
 //@ harness: address_script_pubkey_wit_l32 class=F tier=quick
 //@ clause: same, every 32-byte program (p2wsh, p2tr and v2+)
-spk_witness!(address_script_pubkey_wit_l32, 32);
+spk_witness!(address_script_pubkey_wit_l32, 32, 34);
 //@ harness: address_script_pubkey_wit_l40 class=F tier=quick
 //@ clause: same, every 40-byte program (longest)
-spk_witness!(address_script_pubkey_wit_l40, 40);
+spk_witness!(address_script_pubkey_wit_l40, 40, 42);
 
 //@ harness: address_script_pubkey_hashes class=F tier=quick
 //@ clause: script_pubkey() of a p2pkh address is `76 a9 14 <hash> 88 ac`, of a p2sh address `a9 14 <hash> 87`, for every 20-byte hash; both are recognised again by is_p2pkh / is_p2sh
